@@ -206,6 +206,13 @@ class WalkIter(Iter):
     def next(self, m):
         if self.stack is None:
             self.stack = [(self.root, 0)]
+            # walkdir reports what it cannot read as Err items: a root that does not exist / cannot be listed yields one Err and nothing else
+            we = self.w.slots[self.root].get('walkerr')
+            if we is not None and m.ctx.branch(we):
+                self.stack = []
+                if self.ok_only:
+                    return NONE
+                return some(err(Opaque('walkdir_error', (self.root,))))
         while self.stack:
             slot, depth = self.stack.pop()
             ent = DirEntryV(slot, depth)
